@@ -15,7 +15,8 @@ def run(ctx):
 
     def build(ctx, rng):
         gen = conn_common.tlc_schedules(ctx, "MC_Connection_dispatch_gen.cfg", 3000 if ctx.quick else None, rng, connected=True)
-        rnd = conn_common.random_family(rng, 1000 if ctx.quick else 15000, 0.05, calls=False, subs=True, max_events=10)
+        # (calls run next to the subscribers: a response handler that misbehaves must not cost later frames their delivery)
+        rnd = conn_common.random_family(rng, 1000 if ctx.quick else 15000, 0.05, calls=True, subs=True, max_events=10)
         return {"disp_tlc": gen, "disp_random": rnd, "id_sweep": connsim.c12_sweep_family(ctx.quick, rng)}
 
     mc = [("MC_Connection_dispatch.cfg" if ctx.quick else "MC_Connection_dispatch_deep.cfg", {})]
